@@ -206,9 +206,145 @@ def _batch(args):
     return out
 
 
+def _merge(agg, r):
+    agg["n"] += r["n"]
+    agg["digests"].update(r["digests"])
+    agg["steps"] += r["steps"]
+    agg["vtime"] += r["vtime"]
+    agg["nontrivial"] += r["nontrivial"]
+    agg["selftest_pairs"] += r["selftest_pairs"]
+    agg["selftest_digests"].update({int(k): v for k, v in r["selftest_digests"].items()})
+    agg["selftest_mismatch"].extend(r["selftest_mismatch"])
+    agg["leaked"] += r["leaked"]
+    for k in ("probes", "faults", "extra"):
+        for kk, v in r[k].items():
+            agg[k][kk] = agg[k].get(kk, 0) + v
+    agg["violations"].extend(r["violations"])
+    agg["wall_timeouts"].extend(r.get("wall_timeouts", []))
+    agg["harness_errors"].extend(r["harness_errors"])
+    if len(agg["samples"]) < 3:
+        agg["samples"].extend(r["samples"][:3 - len(agg["samples"])])
+
+
+def isolated(fn, sink_path=None, timeout=900):
+    """Run fn() in a forked child.  Returns ("ok", json-able result) or ("crash", signal number) or ("timeout", None).
+    With sink_path, every choice the child draws is appended to that file as it is drawn."""
+    import signal as _signal
+    out_path = tempfile.mktemp(prefix="isolated-", suffix=".json", dir=scratch_root())
+    sys.stdout.flush()
+    sys.stderr.flush()
+    pid = os.fork()
+    if pid == 0:
+        code = 3
+        try:
+            _child_signals()
+            faulthandler.disable()
+            if sink_path is not None:
+                from . import kernel as _k
+                _k.CHOICE_SINK[0] = os.open(sink_path, os.O_WRONLY | os.O_CREAT | os.O_TRUNC, 0o600)
+            r = fn()
+            with open(out_path, "w") as f:
+                json.dump(r, f, default=str)
+            code = 0
+        except BaseException:
+            traceback.print_exc()
+        finally:
+            os._exit(code)
+    t_end = time.time() + timeout
+    while True:
+        wpid, status = os.waitpid(pid, os.WNOHANG)
+        if wpid == pid:
+            break
+        if time.time() > t_end:
+            try:
+                os.kill(pid, _signal.SIGKILL)
+            except OSError:
+                pass
+            os.waitpid(pid, 0)
+            return "timeout", None
+        time.sleep(0.02)
+    if os.WIFSIGNALED(status):
+        return "crash", os.WTERMSIG(status)
+    if os.WEXITSTATUS(status) != 0 or not os.path.exists(out_path):
+        return "error", os.WEXITSTATUS(status)
+    try:
+        with open(out_path) as f:
+            return "ok", json.load(f)
+    finally:
+        try:
+            os.remove(out_path)
+        except OSError:
+            pass
+
+
+def scan(prop, seed, indices):
+    """internal (--scan): every run index in its own forked child; prints one line per run: RESULT <i> <json> |
+    CRASH <i> <signal> <json list of the choices drawn before the process died>."""
+    setup_process()
+    for i in indices:
+        sink = tempfile.mktemp(prefix="choices-%d-" % i, dir=scratch_root())
+        kind, val = isolated(lambda: _batch((prop, seed, [i], 0, None)), sink_path=sink)
+        if kind == "ok":
+            print("RESULT %d %s" % (i, json.dumps(val, default=str)))
+        else:
+            choices = []
+            try:
+                with open(sink) as f:
+                    choices = [int(x) for x in f.read().split()]
+            except (OSError, ValueError):
+                pass
+            print("CRASH %d %s %s %s" % (i, kind, val, json.dumps(choices)))
+        sys.stdout.flush()
+        try:
+            os.remove(sink)
+        except OSError:
+            pass
+    return 0
+
+
+def scan_parallel(prop, seed, indices, jobs, limit_s):
+    """Run `scan` over the indices in `jobs` fresh interpreters; returns (results, crashes)."""
+    env = dict(os.environ)
+    env["PYTHONPATH"] = VERIF + os.pathsep + env.get("PYTHONPATH", "")
+    env["VERIF_SEED"] = str(seed)
+    jobs = max(1, min(jobs, len(indices)))
+    procs = []
+    for j in range(jobs):
+        part = indices[j::jobs]
+        if part:
+            procs.append(subprocess.Popen([sys.executable, "-m", "toastysim.cli", prop, "--tier", os.environ.get("TOASTYSIM_TIER", "quick"), "--scan", ",".join(str(i) for i in part)],
+                                          env=env, stdout=subprocess.PIPE, stderr=subprocess.DEVNULL, text=True, cwd=VERIF))
+    results, crashes = [], []
+    t_end = time.time() + limit_s
+    for p in procs:
+        try:
+            out, _ = p.communicate(timeout=max(5.0, t_end - time.time()))
+        except subprocess.TimeoutExpired:
+            p.kill()
+            out, _ = p.communicate()
+        for line in (out or "").splitlines():
+            if line.startswith("RESULT "):
+                _, i, js = line.split(" ", 2)
+                results.append(json.loads(js))
+            elif line.startswith("CRASH "):
+                _, i, kind, val, js = line.split(" ", 4)
+                crashes.append({"run_index": int(i), "how": kind, "signal": val, "choices": json.loads(js)})
+    return results, crashes
+
+
+def _child_signals():
+    """Forked children must die on SIGTERM (the top-level process turns it into SystemExit to clean up; a pool worker
+    that did the same would survive the executor's terminate())."""
+    import signal as _signal
+    try:
+        _signal.signal(_signal.SIGTERM, _signal.SIG_DFL)
+    except (ValueError, OSError):
+        pass
+
+
 def _pool(jobs):
     ctx = multiprocessing.get_context("fork")
-    return cf.ProcessPoolExecutor(max_workers=jobs, mp_context=ctx)
+    return cf.ProcessPoolExecutor(max_workers=jobs, mp_context=ctx, initializer=_child_signals)
 
 
 def fresh_digests(prop, seed, indices, hashseed="12345"):
@@ -394,6 +530,21 @@ def replay_file(prop, path):
             return 1
         print("replay of %s: the two interpreters agree (recorded: %s)" % (path, doc["violation"]["sig"]))
         return 0
+    if doc.get("crash"):
+        # the recorded run killed the interpreter: execute it in a forked child
+        def child():
+            r = run_replay(mod, doc["choices"])
+            return {"violation": r.get("violation"), "harness_error": r.get("harness_error")}
+        kind, val = isolated(child)
+        want = doc.get("violation") or {}
+        if kind == "crash":
+            dig = "crash-%s" % val
+            print("replayed: kind=process-crash sig=%s digest=%s (%s)" % (want.get("sig"), dig, "identical to recording" if dig == doc.get("trace_digest") else "DIFFERS from recording"))
+            print("detail: %s" % want.get("detail"))
+            print("VIOLATION property=%s replay=%s" % (prop, path))
+            return 1
+        print("replay of %s: the process survived (%s; recorded: %s)" % (path, kind, want.get("sig")))
+        return 0
     res = run_replay(mod, doc["choices"], keep_kinds=True)
     if "harness_error" in res:
         print("HARNESS-ERROR replay raised: %s" % res["harness_error"])
@@ -468,37 +619,39 @@ def check(prop, tier="quick", seed=0, runs=None, jobs=None, max_s=None, out=sys.
            "harness_errors": [], "samples": [], "nontrivial": 0, "selftest_pairs": 0, "selftest_digests": {},
            "selftest_mismatch": [], "leaked": 0, "extra": {}, "wall_timeouts": []}
     hard_timeout = max_s + 1200
-    with _pool(jobs) as ex:
-        futs = [ex.submit(_batch, t) for t in tasks]
+    unfinished = []
+    ex = _pool(jobs)
+    try:
+        futs = {ex.submit(_batch, t): t for t in tasks}
         try:
-            for f in cf.as_completed(futs, timeout=hard_timeout):
-                r = f.result()
-                agg["n"] += r["n"]
-                agg["digests"].update(r["digests"])
-                agg["steps"] += r["steps"]
-                agg["vtime"] += r["vtime"]
-                agg["nontrivial"] += r["nontrivial"]
-                agg["selftest_pairs"] += r["selftest_pairs"]
-                agg["selftest_digests"].update(r["selftest_digests"])
-                agg["selftest_mismatch"].extend(r["selftest_mismatch"])
-                agg["leaked"] += r["leaked"]
-                for k in ("probes", "faults", "extra"):
-                    for kk, v in r[k].items():
-                        agg[k][kk] = agg[k].get(kk, 0) + v
-                agg["violations"].extend(r["violations"])
-                agg["wall_timeouts"].extend(r.get("wall_timeouts", []))
-                agg["harness_errors"].extend(r["harness_errors"])
-                if len(agg["samples"]) < 3:
-                    agg["samples"].extend(r["samples"][:3 - len(agg["samples"])])
+            for f in cf.as_completed(list(futs), timeout=hard_timeout):
+                try:
+                    r = f.result()
+                except cf.process.BrokenProcessPool:
+                    # a worker process died (a signal inside native code, e.g. SIGBUS on a truncated memory-mapped tile):
+                    # the batches that did not complete are executed again below, one forked child per run
+                    unfinished.append(futs[f])
+                    continue
+                _merge(agg, r)
         except cf.TimeoutError:
             agg["harness_errors"].append({"run_index": -1, "error": "batch wall-clock timeout (%ds)" % hard_timeout})
-            for f in futs:
-                f.cancel()
-            for p in list(getattr(ex, "_processes", {}).values()):
-                try:
-                    p.kill()
-                except Exception:
-                    pass
+    finally:
+        procs = list((getattr(ex, "_processes", None) or {}).values())
+        ex.shutdown(wait=False, cancel_futures=True)
+        for p in procs:
+            try:
+                p.kill()
+            except Exception:
+                pass
+
+    crashes = []
+    if unfinished:
+        idx = sorted(i for t in unfinished for i in t[2])
+        cap = 40 * jobs
+        results, crashes = scan_parallel(prop, seed, idx[:cap], jobs, max(120.0, deadline - time.time()) + 600.0)
+        for r in results:
+            r["digests"] = set(r["digests"])
+            _merge(agg, r)
 
     # determinism self-test: the same seeded runs executed twice in pristine processes (fresh interpreters with two
     # other PYTHONHASHSEEDs, one forked child per run) must give the same trace digest.  A digest that differs only
@@ -599,6 +752,43 @@ def check(prop, tier="quick", seed=0, runs=None, jobs=None, max_s=None, out=sys.
             break
         if not reported and last_err is not None:
             agg["harness_errors"].append(last_err)
+
+    # runs that killed the interpreter
+    for c in crashes:
+        if c["how"] != "crash":
+            agg["harness_errors"].append({"run_index": c["run_index"], "error": "isolated execution of the run ended with %s %s" % (c["how"], c["signal"]), "choices": c["choices"]})
+    real = [c for c in crashes if c["how"] == "crash"]
+    if real:
+        sig = "%s:process-crash" % prop
+        known_sig = [k for k in known if k.get("signature") == sig]
+        if known_sig:
+            known_hit[sig] = (known_sig[0], len(real), real[0])
+        else:
+            last = None
+            for c in real[:3]:
+                import signal as _signal
+                try:
+                    signame = _signal.Signals(int(c["signal"])).name
+                except ValueError:
+                    signame = "signal %s" % c["signal"]
+                viol = {"kind": "process-crash", "sig": sig,
+                        "detail": "run %d killed the Python interpreter with %s after %d choices (a crash inside native code while toasty was running under the simulator, e.g. a memory-mapped tile truncated by a concurrent writer) [not minimised]" % (c["run_index"], signame, len(c["choices"]))}
+                path = write_replay(prop, seed, c["run_index"], c["choices"], len(c["choices"]), {"violation": viol, "digest": "crash-%s" % c["signal"], "config": None}, nrep)
+                doc = json.load(open(path))
+                doc["crash"] = True
+                with open(path, "w") as f:
+                    json.dump(doc, f, indent=1, default=str)
+                ok, txt = verify_replay_fresh(prop, path, sig)
+                if ok:
+                    new_violations.append((sig, len(real), path, viol, 0, len(c["choices"]), len(c["choices"])))
+                    nrep += 1
+                    last = None
+                    break
+                last = {"run_index": c["run_index"], "error": "a run killed a worker process (%s) but the crash does not reproduce from its choices in pristine processes:\n%s" % (signame, txt[-500:]), "choices": c["choices"]}
+            if last is not None:
+                agg["harness_errors"].append(last)
+    elif unfinished and not crashes:
+        agg["harness_errors"].append({"run_index": -1, "error": "a worker process died but no run of its batches crashes when executed alone"})
 
     if xproc_violations:
         kind, text = mod.XPROC_VIOLATION
